@@ -125,4 +125,200 @@ theorem add_server_baseurl_local (h : compile banned f = .ok c) (d b : BDir) (hk
   intro last
   exact ⟨last, by simp [pathsTree, pathsForest, hk, hkb]⟩
 
+/-- a top-level `TAG @fresh` appended: the new tag is inserted after the declared tags and before the automatic
+ones (see `declared_tags_first`), nothing else changes — provided no tag of `c`, declared or automatic, has that
+name (an automatic tag of that name would become the declared one and keep its interactions) -/
+theorem add_tag_local (h : compile banned f = .ok c) (d : BDir) (hk : d.kind = .TAG)
+    (hn : d.param "TagName" ≠ []) (hfresh : ∀ t ∈ c.tags, t.name ≠ d.param "TagName") (hban : d.kind ∉ banned)
+    (hf : f ≠ []) :
+    compile banned (f ++ [.node d []]) =
+      .ok { c with tags := c.tags.filter (·.declared) ++
+              { name := d.param "TagName", title := if d.annot.isEmpty then d.param "TagName" else d.annot,
+                declared := true } :: c.tags.filter (fun t => !t.declared) } :=
+  compile_add_tag h d hk hn hfresh hban hf
+
+/-! ## B. STATIC CHECKS (C11): a duplicate or a second singleton is rejected
+
+Positions are positions of `flatF f` (all directives, source order) or of `flatAF [] f` (the same list, each
+directive with its children and ancestors), except for TAG declarations, which are read at the top level. -/
+
+theorem dup_type_rejected {i j : Nat} {d₁ d₂ : BDir} (hij : i ≠ j)
+    (h₁ : (flatF f)[i]? = some d₁) (h₂ : (flatF f)[j]? = some d₂) (k₁ : d₁.kind = .Type) (k₂ : d₂.kind = .Type)
+    (hn : d₁.param "Name" = d₂.param "Name") : ∀ c, compile banned f ≠ .ok c :=
+  dup_type hij h₁ h₂ k₁ k₂ hn
+
+theorem dup_server_rejected {i j : Nat} {d₁ d₂ : BDir} (hij : i ≠ j)
+    (h₁ : (flatF f)[i]? = some d₁) (h₂ : (flatF f)[j]? = some d₂) (k₁ : d₁.kind = .Server)
+    (k₂ : d₂.kind = .Server) (hn : d₁.param "Name" = d₂.param "Name") : ∀ c, compile banned f ≠ .ok c :=
+  dup_server hij h₁ h₂ k₁ k₂ hn
+
+/-- two top-level TAG directives of the same name -/
+theorem dup_tag_rejected {i j : Nat} {t₁ t₂ : BTree} (hij : i ≠ j) (h₁ : f[i]? = some t₁) (h₂ : f[j]? = some t₂)
+    (k₁ : t₁.dir.kind = .TAG) (k₂ : t₂.dir.kind = .TAG)
+    (hn : t₁.dir.param "TagName" = t₂.dir.param "TagName") : ∀ c, compile banned f ≠ .ok c := by
+  intro c h
+  obtain ⟨c₀, h0, _⟩ := compile_ok h
+  rcases Nat.lt_or_gt_of_ne hij with hlt | hgt
+  · exact collectTags_dup f i j t₁ t₂ hlt h₁ h₂ k₁ k₂ hn _ _ h0
+  · exact collectTags_dup f j i t₂ t₁ hgt h₂ h₁ k₂ k₁ hn.symm _ _ h0
+
+/-- two URL directives (anywhere) with the same path -/
+theorem dup_url_rejected {i j : Nat} {d₁ d₂ : BDir} (hij : i ≠ j)
+    (h₁ : (flatF f)[i]? = some d₁) (h₂ : (flatF f)[j]? = some d₂) (k₁ : d₁.kind = .URL) (k₂ : d₂.kind = .URL)
+    (hn : d₁.param "Path" = d₂.param "Path") : ∀ c, compile banned f ≠ .ok c :=
+  dup_url hij h₁ h₂ k₁ k₂ hn
+
+/-- two method directives (HTTP verbs or JSON-RPC `Method`) that yield the same interaction id -/
+theorem dup_method_rejected {i j : Nat} {e₁ e₂ : Ent} {x : IId} (hij : i ≠ j)
+    (h₁ : (flatAF [] f)[i]? = some e₁) (h₂ : (flatAF [] f)[j]? = some e₂)
+    (k₁ : isHTTP e₁.d.kind || e₁.d.kind == .Method) (k₂ : isHTTP e₂.d.kind || e₂.d.kind == .Method)
+    (i₁ : idOf e₁ = .ok x) (i₂ : idOf e₂ = .ok x) : ∀ c, compile banned f ≠ .ok c :=
+  dup_method hij h₁ h₂ k₁ k₂ i₁ i₂
+
+/-- the diagnostic of the second HTTP method directive, when the checks before the duplicate test pass -/
+theorem second_method_message {d : BDir} {kids : List BDir} {anc : List Up} {c : Cat} {i : IId} {path : Bytes}
+    {pp sim : List (Bytes × Bytes)} (hpath : pathChain (d :: anc.map (·.d)) = .ok path)
+    (hpp : checkedParams d path = .ok pp) (hsim : checkSimilar c.similar pp = some sim)
+    (hi : httpIdOf (d :: anc.map (·.d)) = .ok i) (hhas : c.hasInter i = true) :
+    addHTTPMethod d kids anc c = .error ⟨d.id, .methodDefined⟩ :=
+  addHTTPMethod_defined hpath hpp hsim hi hhas
+
+/-- two Title directives anywhere (a fortiori under one INFO) -/
+theorem second_title_rejected {i j : Nat} {d₁ d₂ : BDir} (hij : i ≠ j)
+    (h₁ : (flatF f)[i]? = some d₁) (h₂ : (flatF f)[j]? = some d₂) (k₁ : d₁.kind = .Title)
+    (k₂ : d₂.kind = .Title) : ∀ c, compile banned f ≠ .ok c :=
+  dup_title hij h₁ h₂ k₁ k₂
+
+theorem second_version_rejected {i j : Nat} {d₁ d₂ : BDir} (hij : i ≠ j)
+    (h₁ : (flatF f)[i]? = some d₁) (h₂ : (flatF f)[j]? = some d₂) (k₁ : d₁.kind = .Version)
+    (k₂ : d₂.kind = .Version) : ∀ c, compile banned f ≠ .ok c :=
+  dup_version hij h₁ h₂ k₁ k₂
+
+/-- two Description directives whose parent is an INFO directive -/
+theorem second_info_description_rejected {i j : Nat} {e₁ e₂ : Ent} (hij : i ≠ j)
+    (h₁ : (flatAF [] f)[i]? = some e₁) (h₂ : (flatAF [] f)[j]? = some e₂)
+    (k₁ : e₁.d.kind = .Description) (k₂ : e₂.d.kind = .Description)
+    (u₁ : ∃ p r, e₁.anc = p :: r ∧ p.d.kind = .Info) (u₂ : ∃ p r, e₂.anc = p :: r ∧ p.d.kind = .Info) :
+    ∀ c, compile banned f ≠ .ok c :=
+  dup_info_description hij h₁ h₂ k₁ k₂ u₁ u₂
+
+/-- the table of `requiredParam` (JSIGHT Version, Title, Version, SERVER Name, BaseUrl Path, TYPE Name,
+Protocol ProtocolName, Method MethodName): a directive anywhere without its required parameter -/
+theorem missing_required_rejected {d : BDir} {p : String} (hd : d ∈ flatF f)
+    (hr : requiredParam d.kind = some p) (hm : d.param p = []) : ∀ c, compile banned f ≠ .ok c :=
+  missing_required hd hr hm
+
+example : [Kind.Jsight, .Title, .Version, .Server, .BaseURL, .Type, .Protocol, .Method].map requiredParam =
+    [some "Version", some "Title", some "Version", some "Name", some "Path", some "Name", some "ProtocolName",
+     some "MethodName"] := rfl
+
+/-- a top-level TAG without a name -/
+theorem missing_tagname_rejected {t : BTree} (ht : t ∈ f) (hk : t.dir.kind = .TAG)
+    (hm : t.dir.param "TagName" = []) : ∀ c, compile banned f ≠ .ok c := by
+  intro c h
+  obtain ⟨c₀, h0, _⟩ := compile_ok h
+  exact collectTags_missing f t ht hk hm _ _ h0
+
+/-- a Tags directive anywhere naming a tag that no top-level TAG declares -/
+theorem undeclared_tag_rejected {d : BDir} {n : Bytes} (hd : d ∈ flatF f) (hk : d.kind = .Tags)
+    (hn : n ∈ d.unnamed) (hno : ∀ t ∈ f, t.dir.kind = .TAG → t.dir.param "TagName" ≠ n) :
+    ∀ c, compile banned f ≠ .ok c := by
+  refine undeclared_tag hd hk hn ?_
+  intro t ht
+  simp only [declTags, List.mem_map, List.mem_filter] at ht
+  obtain ⟨d', ⟨⟨t', ht', rfl⟩, hk'⟩, rfl⟩ := ht
+  exact hno t' ht' (by simpa using hk')
+
+/-! ## concrete checks: the hypotheses are satisfiable -/
+
+instance {ε α : Type} [DecidableEq ε] [DecidableEq α] : DecidableEq (Except ε α) := fun a b =>
+  match a, b with
+  | .ok x, .ok y => if h : x = y then isTrue (h ▸ rfl) else isFalse (fun h' => by cases h'; exact h rfl)
+  | .error x, .error y => if h : x = y then isTrue (h ▸ rfl) else isFalse (fun h' => by cases h'; exact h rfl)
+  | .ok _, .error _ => isFalse (fun h => by cases h)
+  | .error _, .ok _ => isFalse (fun h => by cases h)
+
+/-- TYPE @cat // A cat {} -/
+def exCat : BDir := { kind := .Type, named := [("Name", [64, 99, 97, 116])], annot := [65, 32, 99, 97, 116], body := some [123, 125] }
+
+/-- JSIGHT, INFO with Title and Version, SERVER with BaseUrl, TAG, TYPE, a URL with two methods, a JSON-RPC URL -/
+def exF : List BTree := [
+  -- JSIGHT 0.3
+  .node { kind := .Jsight, named := [("Version", [48, 46, 51])] } [],
+  -- INFO / Title "My API" / Version 1.0
+  .node { kind := .Info } [
+.node { kind := .Title, named := [("Title", [77, 121, 32, 65, 80, 73])] } [],
+.node { kind := .Version, named := [("Version", [49, 46, 48])] } []],
+  -- SERVER @prod // Production / BaseUrl "https://x"
+  .node { kind := .Server, named := [("Name", [64, 112, 114, 111, 100])], annot := [80, 114, 111, 100, 117, 99, 116, 105, 111, 110] } [
+.node { kind := .BaseURL, named := [("Path", [104, 116, 116, 112, 115, 58, 47, 47, 120])] } []],
+  -- TAG @pets // Pets
+  .node { kind := .TAG, named := [("TagName", [64, 112, 101, 116, 115])], annot := [80, 101, 116, 115] } [],
+  -- TYPE @cat // A cat  {}
+  .node exCat [],
+  -- URL /cats: GET // List cats (Tags @pets, 200 []), POST // Make cat (Request {}, 201 any)
+  .node { kind := .URL, named := [("Path", [47, 99, 97, 116, 115])] } [
+.node { kind := .Get, annot := [76, 105, 115, 116, 32, 99, 97, 116, 115] } [
+.node { kind := .Tags, unnamed := [[64, 112, 101, 116, 115]] } [],
+.node { kind := .HTTPResponseCode, body := some [91, 93], keyword := [50, 48, 48] } []],
+.node { kind := .Post, annot := [77, 97, 107, 101, 32, 99, 97, 116] } [
+.node { kind := .Request, body := some [123, 125] } [],
+.node { kind := .HTTPResponseCode, named := [("SchemaNotation", [97, 110, 121])], keyword := [50, 48, 49] } []]],
+  -- URL /rpc: Protocol json-rpc-2.0, Method foo // Foo (Params {})
+  .node { kind := .URL, named := [("Path", [47, 114, 112, 99])] } [
+.node { kind := .Protocol, named := [("ProtocolName", [106, 115, 111, 110, 45, 114, 112, 99, 45, 50, 46, 48])] } [],
+.node { kind := .Method, named := [("MethodName", [102, 111, 111])], annot := [70, 111, 111] } [
+.node { kind := .Params, body := some [123, 125] } []]]]
+
+/-- the catalog of `exF` -/
+def exC : Cat := match compile [] exF with | .ok c => c | .error _ => {}
+
+theorem exF_ok : compile [] exF = .ok exC := by decide +kernel
+
+example : exC.types.map (fun t => (t.name, t.annot)) = [([64, 99, 97, 116], [65, 32, 99, 97, 116])] := by
+  rw [types_faithful exF_ok]; decide +kernel
+example : exC.servers.map (fun t => (t.name, t.annot)) = [([64, 112, 114, 111, 100], [80, 114, 111, 100, 117, 99, 116, 105, 111, 110])] := by
+  rw [servers_faithful exF_ok]; decide +kernel
+example : (exC.tags.filter (·.declared)).map (fun t => (t.name, t.title)) = [([64, 112, 101, 116, 115], [80, 101, 116, 115])] := by
+  rw [declared_tags_faithful exF_ok]; decide +kernel
+-- "List cats", "Make cat", "Foo"
+example : exC.inters.map (·.annot) = [[76, 105, 115, 116, 32, 99, 97, 116, 115], [77, 97, 107, 101, 32, 99, 97, 116], [70, 111, 111]] := by
+  rw [interactions_faithful exF_ok]; decide +kernel
+-- GET /cats, POST /cats, foo /rpc
+example : exC.inters.map (fun x => (x.iid.proto, x.iid.method, x.iid.path)) =
+    [(.http, [71, 69, 84], [47, 99, 97, 116, 115]), (.http, [80, 79, 83, 84], [47, 99, 97, 116, 115]), (.rpc, [102, 111, 111], [47, 114, 112, 99])] := by decide +kernel
+-- the tags: @pets (declared), then the automatic @cats and @rpc
+example : exC.tags.map (fun t => (t.name, t.declared)) = [([64, 112, 101, 116, 115], true), ([64, 99, 97, 116, 115], false), ([64, 114, 112, 99], false)] := by
+  decide +kernel
+example : exC.jsight = v03 := jsight_version exF_ok (by decide)
+
+/-- TYPE @dog // A dog {} -/
+def exNewType : BDir := { kind := .Type, named := [("Name", [64, 100, 111, 103])], annot := [65, 32, 100, 111, 103], body := some [123, 125] }
+
+example : compile [] (exF ++ [.node exNewType []]) =
+    .ok { exC with types := exC.types ++ [{ name := [64, 100, 111, 103], annot := [65, 32, 100, 111, 103], nota := nJsight }] } :=
+  add_type_local exF_ok exNewType rfl (by decide) (by decide +kernel) (nt := nJsight) (by decide +kernel)
+    (fun _ => rfl) (by decide) (by decide)
+
+/-- SERVER @test // Test -/
+def exNewServer : BDir := { kind := .Server, named := [("Name", [64, 116, 101, 115, 116])], annot := [84, 101, 115, 116] }
+example : compile [] (exF ++ [.node exNewServer []]) =
+    .ok { exC with servers := exC.servers ++ [{ name := [64, 116, 101, 115, 116], annot := [84, 101, 115, 116] }] } :=
+  add_server_local exF_ok exNewServer rfl (by decide) (by decide +kernel) (by decide) (by decide)
+
+/-- TAG @zoo // Zoo -/
+def exNewTag : BDir := { kind := .TAG, named := [("TagName", [64, 122, 111, 111])], annot := [90, 111, 111] }
+example : (compile [] (exF ++ [.node exNewTag []])).toOption.map (fun c => c.tags.map (fun t => (t.name, t.declared))) =
+    some [([64, 112, 101, 116, 115], true), ([64, 122, 111, 111], true), ([64, 99, 97, 116, 115], false), ([64, 114, 112, 99], false)] := by
+  rw [add_tag_local exF_ok exNewTag rfl (by decide) (by decide +kernel) (by decide) (by decide)]
+  decide +kernel
+
+/-- a second `TYPE @cat` is rejected -/
+def exDup : BDir := { kind := .Type, named := [("Name", [64, 99, 97, 116])], annot := [97, 103, 97, 105, 110], body := some [123, 125] }
+
+example : ∀ c, compile [] (exF ++ [.node exDup []]) ≠ .ok c :=
+  dup_type_rejected (i := 7) (j := 19) (d₁ := exCat) (d₂ := exDup) (by decide) (by decide +kernel)
+    (by decide +kernel) rfl rfl (by decide +kernel)
+example : compile [] (exF ++ [.node exDup []]) = .error ⟨0, .duplicateNames⟩ := by decide +kernel
+
 end JSight.C04B
